@@ -1,7 +1,7 @@
 """Keep known_findings.json's `fixed` entries in step with the fix: commits on /repo main.
 Each fix commit gets `fixed: property=<id> <commit> <what failed>`; a fixed entry suppresses nothing."""
 import json, subprocess, re
-GROUP = {"A": ["C02", "C17"], "B": ["C03"], "C": ["C08"], "D": ["C04", "C01"], "E": ["C05", "C06"], "F": ["C09", "C20"],
+GROUP = {"K": ["C18"], "A": ["C02", "C17"], "B": ["C03"], "C": ["C08"], "D": ["C04", "C01"], "E": ["C05", "C06"], "F": ["C09", "C20"],
          "G": ["C12", "C11", "C10"], "H": ["C13", "C14"], "I": ["C15", "C16"], "J": ["C07", "C19"]}
 # within a builder's group: regex on the subject selecting the NON-first property
 SECOND = {"A": [(r"context-manager|`with td|with-block", "C17")],
